@@ -539,7 +539,7 @@ def replay(ctx, case):
 def plan(tier, seed):
     q = tier == "quick"
     t = []
-    for kind, nq, nt, shards in (("sim", 40, 4000, 5), ("frames", 60, 5000, 3), ("raw", 120, 8000, 2), ("tls", 100, 6000, 2), ("h3", 200, 15000, 2)):
+    for kind, nq, nt, shards in (("sim", 40, 4000, 5), ("frames", 60, 5000, 3), ("raw", 120, 8000, 2), ("tls", 300, 6000, 2), ("h3", 200, 15000, 2)):
         for s in range(shards):
             t.append(("%s-%d" % (kind, s), {"kind": kind, "examples": nq if q else nt, "shard": s}))
     return t
